@@ -68,15 +68,23 @@ f := func(x int) int {
     return x + 1
 }
 ok := true
+
 var e interface{} = 1
+
 n := 0
 ch := make(chan, 16)
+
 for i := 0; i < 8; i++ {
     ch <- i
 }
 
 fmt.Println(a, b, s, xs, m, t.get(), p.a, *q, f(1), ok, e, n, strings.ToUpper(s))
 `
+
+// The language extensions (print, try/catch, throw, if-expressions, ...) are
+// off in a fresh `ego run`; every generated text switches them on the way the
+// Ego test suite does.
+const extensionsOn = "@extensions true\n"
 
 func indent(s string, levels int) string {
 	pad := strings.Repeat("    ", levels)
@@ -93,12 +101,12 @@ func indent(s string, levels int) string {
 
 // program wraps declarations and a main body as a complete program.
 func program(decls, body string) string {
-	return "package main\n\n" + envImports + "\n" + envDecls + decls + "\nfunc main() {\n" + indent(envVars+body, 1) + "}\n"
+	return extensionsOn + "package main\n\n" + envImports + "\n" + envDecls + decls + "\nfunc main() {\n" + indent(envVars+body, 1) + "}\n"
 }
 
 // fragment is the same code as a statement fragment (no package, no main).
 func fragment(decls, body string) string {
-	return envImports + "\n" + envDecls + decls + "\n" + envVars + body
+	return extensionsOn + envImports + "\n" + envDecls + decls + "\n" + envVars + body
 }
 
 // ---------------------------------------------------------------------------
@@ -218,7 +226,7 @@ var productions = []production{
 	{"struct-lit-empty", "composite-literal", "int", "T{}.a"},
 	{"struct-lit-addr", "composite-literal", "int", "(&T{a: §int}).a"},
 	{"struct-lit-paren", "composite-literal", "int", "(T{a: §int}).a"},
-	{"anon-struct-lit", "composite-literal-anon-struct", "int", "struct{ v int }{v: §int}.v"},
+	{"anon-struct-lit", "composite-literal", "int", "struct{ v int }{v: §int}.v"},
 	{"nested-slice-lit", "composite-literal", "int", "[][]int{{§int}, {2, 3}}[0][0]"},
 	{"nested-struct-lit", "composite-literal", "int", "[]T{{a: §int}, T{a: 2}}[0].a"},
 	{"nested-map-lit", "composite-literal", "int", "map[string]T{\"k\": {a: §int}}[\"k\"].a"},
@@ -426,7 +434,7 @@ var positions = []position{
 	{"for3-init", "header", "int", "for i := §; i < 3; i++ {\n    fmt.Println(\"i\", i)\n}\n", false},
 	{"for3-cond", "header", "int", "for i := 0; i < §; i++ {\n    fmt.Println(\"i\", i)\n}\n", false},
 	{"for3-post", "header", "int", "for i := 0; i < 3; i = § * 0 + i + 1 {\n    fmt.Println(\"i\", i)\n}\n", false},
-	{"switch-tag", "header", "int", "switch § {\ncase 1:\n    fmt.Println(\"one\")\ndefault:\n    fmt.Println(\"other\")\n}\n", true},
+	{"switch-tag", "header", "int", "switch § {\ncase 1:\n    fmt.Println(\"one\")\ndefault:\n    fmt.Println(\"other\")\n}\n", false},
 	{"switch-init", "header", "int", "switch v := §; v {\ncase 1:\n    fmt.Println(\"one\", v)\ndefault:\n    fmt.Println(\"other\", v)\n}\n", false},
 	{"switch-init-tag", "header", "int", "switch v := 1; v + § {\ncase 2:\n    fmt.Println(\"two\", v)\ndefault:\n    fmt.Println(\"other\", v)\n}\n", false},
 	{"range-int", "header", "int", "for i := range § {\n    fmt.Println(\"i\", i)\n}\n", false},
@@ -444,7 +452,7 @@ var positions = []position{
 	{"range-k", "header", "ints", "for i := range § {\n    fmt.Println(i)\n}\n", false},
 	{"range-blank", "header", "ints", "for _, v := range § {\n    fmt.Println(v)\n}\n", false},
 	{"range-assign", "header", "ints", "i := 0\nv := 0\n\nfor i, v = range § {\n    fmt.Println(i, v)\n}\n", false},
-	{"range-map", "header", "map", "for k, v := range § {\n    fmt.Println(k, v)\n}\n", true},
+	{"range-map", "header", "map", "for k, v := range § {\n    fmt.Println(k, v)\n}\n", false},
 	// case lists
 	{"case-expr", "case", "int", "switch a {\ncase §:\n    fmt.Println(\"hit\")\ncase 0, § + 1:\n    fmt.Println(\"second\")\ndefault:\n    fmt.Println(\"default\")\n}\n", false},
 	{"case-bool", "case", "bool", "switch {\ncase §:\n    fmt.Println(\"hit\")\ndefault:\n    fmt.Println(\"default\")\n}\n", false},
@@ -459,7 +467,7 @@ var positions = []position{
 	{"var-untyped", "statement", "int", "var v = §\nfmt.Println(\"v\", v)\n", false},
 	{"return", "statement", "int", "r := func() int {\n    return §\n}\nfmt.Println(\"r\", r())\n", false},
 	{"return-2", "statement", "int", "r := func() (int, int) {\n    return §, 2\n}\nfmt.Println(r())\n", false},
-	{"call-arg", "statement", "int", "fmt.Println(\"v\", §)\n", true},
+	{"call-arg", "statement", "int", "fmt.Println(\"v\", §)\n", false},
 	{"call-arg-2", "statement", "int", "fmt.Println(§, §)\n", false},
 	{"index-assign", "statement", "int", "xs[§ * 0] = §\nfmt.Println(xs)\n", false},
 	{"defer", "statement", "int", "func() {\n    defer fmt.Println(\"deferred\", §)\n    fmt.Println(\"body\")\n}()\n", false},
@@ -475,15 +483,15 @@ var positions = []position{
 	{"inc-target", "statement", "int", "ys := []int{0, 0, 0, 0, 0, 0, 0, 0}\nys[§ & 7]++\nfmt.Println(ys)\n", false},
 	{"const", "statement", "int", "const c = §\nfmt.Println(\"c\", c)\n", false},
 	// ordinary statements, other types
-	{"define-bool", "statement", "bool", "x := §\nfmt.Println(\"x\", x)\n", true},
+	{"define-bool", "statement", "bool", "x := §\nfmt.Println(\"x\", x)\n", false},
 	{"call-arg-bool", "statement", "bool", "fmt.Println(\"v\", §)\n", false},
-	{"define-str", "statement", "str", "x := § + \"!\"\nfmt.Println(\"x\", x, len(x))\n", true},
+	{"define-str", "statement", "str", "x := § + \"!\"\nfmt.Println(\"x\", x, len(x))\n", false},
 	{"call-arg-str", "statement", "str", "fmt.Println(\"v\", §, len(§))\n", false},
 	{"print-str", "statement", "str", "print §\n", false},
 	{"const-str", "statement", "str", "const c = §\nfmt.Println(c, len(c))\n", false},
 	{"define-ints", "statement", "ints", "ys := §\nfmt.Println(ys, len(ys))\n", true},
 	{"spread", "statement", "ints", "fmt.Println(sum(§...))\n", false},
-	{"define-map", "statement", "map", "mm := §\nfmt.Println(mm, len(mm))\n", true},
+	{"define-map", "statement", "map", "mm := §\nfmt.Println(mm, len(mm))\n", false},
 }
 
 // ---------------------------------------------------------------------------
@@ -588,7 +596,7 @@ var stmtForms = []stmtForm{
 	{"print-comma", "print", "print \"p$\",\nprint \"q$\"\n", false},
 	{"print-empty", "print", "print\n", false},
 	{"call-stmt", "call-stmt", "call id(3)\n", false},
-	{"multi-line-call", "multi-line", "fmt.Println(\n    \"one$\",\n    \"two$\",\n)\n", false},
+	{"multi-line-call", "multi-line", "fmt.Println(\"one$\",\n    \"two$\",\n    \"three$\")\n", false},
 	{"multi-line-slice", "multi-line", "ys$ := []int{\n    1,\n    2,\n}\n\nfmt.Println(ys$)\n", false},
 	{"multi-line-struct", "multi-line", "tt$ := T{\n    a: 4,\n    b: \"y\",\n}\n\nfmt.Println(tt$.a, tt$.b)\n", false},
 	{"multi-line-map", "multi-line", "mm$ := map[string]int{\n    \"p\": 1,\n}\n\nfmt.Println(mm$)\n", false},
